@@ -195,7 +195,7 @@ theorem replayEntry_ok (C : Crypto) (hC : HashWF C) (d : Disk) (ol : Oplog.State
         simpa using this
     · simp only [updateContiguous]; split <;> (try split) <;> rfl
     · simp only [updateContiguous]; split <;> (try split) <;> rfl
-  | append batch nodes sig fk hne hsig sound compl =>
+  | append batch nodes sig fk hne hsig sound compl _ =>
     have hemp : batch.isEmpty = false := by cases batch with | nil => exact absurd rfl hne | cons _ _ => rfl
     have hk : 0 < batch.length := List.length_pos_iff.mpr hne
     generalize hheld' : (fun i => a.held i || (decide (a.blocks.size ≤ i) && decide (i < a.blocks.size + batch.length))) = held'
